@@ -223,7 +223,9 @@ def install_tls(e):
     VALS = dict(cert_reqs="int", check_hostname="bool",
                 ca_certs=("opt", "str"), ca_cert_path=("opt", "str"), server_hostname=("opt", "str"), ciphers="str", ecdh_curve="str",
                 certfile=("opt", "str"), keyfile=("opt", "str"), password=("opt", "str"),
-                cert_chain=("tuple", ["str", "str", "str"]), do_handshake_on_connect="bool", suppress_ragged_eofs="bool")
+                cert_chain=("tuple", ["str", "str", "str"]), do_handshake_on_connect="bool", suppress_ragged_eofs="bool",
+                # any protocol constant: only PROTOCOL_TLS_CLIENT contexts start with verification on, so nothing may rely on the defaults
+                ssl_version="int")
 
     VERIF_KEYS = ("cert_reqs", "check_hostname", "ca_certs", "ca_cert_path", "server_hostname")
 
